@@ -18,10 +18,13 @@ def stream_lines(writes):
     return lines, buf
 
 
-def run_real(k0_ms, events, horizon_ms, tie_timeout_first, send_limit=65536):
+def run_real(k0_ms, events, horizon_ms, tie_timeout_first, send_limit=65536, due_first=False):
     """events: list of (t_ms, ('p', msg) | ('pill', k_ms) | ('k', k_ms) | ('stop',)). Returns [(t_ms, line)]."""
     import lightstreamer_adapter.server as S
-    sched = shim.Sched(lambda names, ops: names[0])
+    # simultaneous events: `due_first` lets a producer whose time has come run BEFORE the writer's next operation (the writer
+    # has just timed out, or just been woken, at that same instant), the default lets the writer go on first
+    sched = shim.Sched((lambda names, ops: ([n for n in names if n in ("D", "X")] or names)[0]) if due_first else (lambda names, ops: names[0]))
+    sched.wake_due = due_first
     sock = shim.Socket()
     sock.send_limit = send_limit
     saved = shim.install(sched, sock)
@@ -174,7 +177,9 @@ def stream(tier):
         tie = bool(i % 2)
         # some peers read slowly: a single send() then accepts only a few bytes (sendall is unaffected)
         limit = R.choice([65536, 65536, 4, 7, 1])
-        writes, srv, errors = run_real(k0, events, horizon, tie, limit)
+        due_first = bool(tie and i % 4 == 1)
+        writes, srv, errors = run_real(k0, events, horizon, tie, limit, due_first)
+        res.distribution["producer_between_timeout_and_next_writer_step"] += int(due_first)
         out, rest = stream_lines(writes)
         res.distribution["send_limit_%d" % limit] += 1
         if rest:
